@@ -1,6 +1,6 @@
 (** Extraction of the executable model for the correspondence driver.
     ExtrOcamlBasic only; N and Z stay the extracted inductives. *)
-Require Import Base Kinds GenUnionTable Schema Varint Utf8 Sval Ser Rabin CrcSpec Text CanonicalForm Target Reader De VectoredWrite AvroValue Encoding Denote Container FileSpec Json Parse SchemaJson PcfSpec SerHistory SingleObject Freeze Ownership Wf Derive CodecLoop DecodeLoop.
+Require Import Base Kinds GenUnionTable Schema Varint Utf8 Sval Ser Rabin CrcSpec Text CanonicalForm Target Reader De VectoredWrite AvroValue Encoding Denote Container FileSpec Json Parse SchemaJson PcfSpec SerHistory SingleObject Freeze Ownership Wf Derive CodecLoop DecodeLoop ContainerCodec ContainerReplay.
 Require Extraction.
 Require Import ExtrOcamlBasic.
 Extraction Language OCaml.
@@ -22,4 +22,7 @@ Separate Extraction
   Derive.derive_schema Derive.derive_schema_unregistered Derive.fullnames Derive.no_dup_bytes
   CodecLoop.replay_block CodecLoop.snappy_encode CodecLoop.snappy_decode CodecLoop.be32 CodecLoop.of_be32
   DecodeLoop.replay_end DecodeLoop.replay_end_before_fix
+  ContainerCodec.ccr_file ContainerCodec.cc_vdec ContainerCodec.BStream ContainerCodec.CEof
+  ContainerReplay.rp_d0 ContainerReplay.rp_dread ContainerReplay.rp_policy_fill ContainerReplay.rp_policy_direct
+  ContainerReplay.rp_raw_dec ContainerReplay.rp_crc32
   Wf.depth_cost Denote.dval_any Denote.present Denote.erase_borrow Denote.typed_target Denote.dval_typed.
